@@ -101,6 +101,7 @@ class Bench:
         self.allowances = {}
         self.n_ok_state = 0
         self.instr_hooks = []    # callables (bench, ev, info) for C19, set by oracle_instr
+        self.held = {}           # hold id -> kept PlateSlicer objects (the user's variable), see ev_hold_slice
 
     # ------------------------------------------------------------------ helpers
     def V(self, prop, clause, key, detail, known=None):
@@ -131,6 +132,18 @@ class Bench:
             cells, sshape = None, None
         if sel['k'] == 'all':
             return Operand(name, v, kind, base, base, sel, cells, sshape, whole=True)
+        extra = ref[3] if len(ref) > 3 and isinstance(ref[3], dict) else None
+        if extra is not None and extra.get('held') in self.held and cells is not None:
+            # the slice object the user kept (and possibly read) earlier, used again - not a fresh plate[...] expression
+            h = self.held[extra['held']]
+            if h['name'] == name and h['ver'] == v:
+                if h['sel'] == sel:
+                    self.stats['probe:held_slice_used'] += 1
+                    return Operand(name, v, kind, base, h['real'], sel, cells, sshape)
+                if sel['k'] == 'sub' and h['sel'] == sel['base']:
+                    (a, b), (c0, c1) = sel['sub']
+                    self.stats['probe:held_slice_subsliced'] += 1
+                    return Operand(name, v, kind, base, h['real'][slice(a, b), slice(c0, c1)], sel, cells, sshape)
         try:
             real = slice_of(base, sel)
         except Exception as exc:        # selector rejected by the library
@@ -619,7 +632,8 @@ class Bench:
             wells = o.wells.flatten() if isinstance(o, self.rep.Plate) else [o]
             for w in wells:
                 for sub, a in w.contents.items():
-                    tot[sub.name] = tot.get(sub.name, F(0)) + F(a)
+                    k = self.world.key_of(sub)
+                    tot[k] = tot.get(k, F(0)) + F(a)
         return tot
 
     def check_conservation(self, key, before_objs, after_objs, n_pairs, known):
@@ -686,12 +700,16 @@ class Bench:
         rep = self.rep
         from copy import deepcopy
         CT = rep.Container.transfer
+
+        def cur(exp, base, cell):
+            # a well named twice in a list is visited twice: the second visit starts from the first visit's result
+            return exp[cell] if cell in exp else deepcopy(base.wells[cell])
         try:
             if form == 'c>N':
                 src = s.base
                 exp = {}
                 for cell in d.cells:
-                    src, w = CT(src, deepcopy(d.base.wells[cell]), q)
+                    src, w = CT(src, cur(exp, d.base, cell), q)
                     exp[cell] = w
                 self.diff_wells(rd, exp, key, 'd', known)
                 self.diff_container(rs, src, key, 's', known)
@@ -699,7 +717,7 @@ class Bench:
                 dst = d.base
                 exp = {}
                 for cell in s.cells:
-                    w, dst = CT(deepcopy(s.base.wells[cell]), dst, q)
+                    w, dst = CT(cur(exp, s.base, cell), dst, q)
                     exp[cell] = w
                 self.diff_wells(rs, exp, key, 's', known)
                 self.diff_container(rd, dst, key, 'd', known)
@@ -707,7 +725,7 @@ class Bench:
                 src = deepcopy(s.base.wells[s.cells[0]])
                 exp = {}
                 for cell in d.cells:
-                    src, w = CT(src, deepcopy(d.base.wells[cell]), q)
+                    src, w = CT(src, cur(exp, d.base, cell), q)
                     exp[cell] = w
                 self.diff_wells(rd, exp, key, 'd', known)
                 self.diff_wells(rs, {s.cells[0]: src}, key, 's', known)
@@ -715,14 +733,14 @@ class Bench:
                 dst = deepcopy(d.base.wells[d.cells[0]])
                 exp = {}
                 for cell in s.cells:
-                    w, dst = CT(deepcopy(s.base.wells[cell]), dst, q)
+                    w, dst = CT(cur(exp, s.base, cell), dst, q)
                     exp[cell] = w
                 self.diff_wells(rs, exp, key, 's', known)
                 self.diff_wells(rd, {d.cells[0]: dst}, key, 'd', known)
             elif form == 'N>N':
                 es, ed = {}, {}
                 for cs, cd in zip(s.cells, d.cells):
-                    a, b = CT(deepcopy(s.base.wells[cs]), deepcopy(d.base.wells[cd]), q)
+                    a, b = CT(cur(es, s.base, cs), cur(ed, d.base, cd), q)
                     es[cs], ed[cd] = a, b
                 self.diff_wells(rs, es, key, 's', known)
                 self.diff_wells(rd, ed, key, 'd', known)
@@ -748,6 +766,13 @@ class Bench:
 
     # ---- after a successful state-changing event: observers (C10), instructions (C19)
     def after_result(self, ev, named, key, **info):
+        if len(self.world.keys_of_name) < len(self.world.msubs):
+            for _, o in named:
+                for w in (o.wells.flatten() if isinstance(o, self.rep.Plate) else [o]):
+                    names = [s.name for s in w.contents]
+                    if len(names) != len(set(names)):
+                        self.stats['probe:twins_in_one_vessel'] += 1
+                        break
         if self.obs:
             from . import observers
             observers.check_observers(self, ev, named, key)
@@ -1110,4 +1135,16 @@ class Bench:
         if t is None or t.kind != 'plate' or t.whole or t.cells is None:
             return {'out': 'skip'}
         self.world.extra_live.append((f"slice of {t.name}@{t.ver}", t.real, fingerprint(self.rep, t.real)))
+        if 'hid' in ev:
+            self.held[ev['hid']] = {'name': t.name, 'ver': t.ver, 'sel': t.sel, 'real': t.real}
+        # the user looks at the slice before using it (whatever the library memoises on the object is now populated)
+        for r in ev.get('read', ()):
+            out = self.call({'get': lambda: t.real.get(), 'shape': lambda: (t.real.shape, t.real.size),
+                             'volumes': lambda: t.real.get_volumes(), 'substances': lambda: t.real.get_substances(),
+                             'repr': lambda: repr(t.real)}[r])
+            self.stats['probe:held_slice_read'] += 1
+            if out[0] != 'ok':
+                self.stats['held_read_raised'] += 1
+            elif r == 'shape' and t.shape is not None and (tuple(out[1][0]) != tuple(t.shape) or out[1][1] != len(t.cells)):
+                self.V('C07', 'slice_shape', ('hold_slice', 'shape'), f"slice {t.sel!r}: shape/size reported {out[1]!r}, selects {t.shape} / {len(t.cells)} wells")
         return {'out': 'ok'}
